@@ -906,7 +906,8 @@ pub fn main_c18(env: &Env, tier: &str, seed: u64, replay: Option<&str>) -> i32 {
                         }
                     }
                     if let Ok(r2) = run(env, &apply(&never, &none), &ctx.dir.join("run"), false) {
-                        if r2.stdout != refi.delivered {
+                        // a comparison run that itself went wrong (killed, other status) proves nothing
+                        if !r2.timed_out && r2.exit_code == r.exit_code && r2.stdout != refi.delivered {
                             v.push(Violation::new("X2-delivery", &format!("{}:{}:none:paged-differs", s.kind, s.sub), format!("what reached the pager/stdout in --paging {} ({} bytes) differs from --paging never ({} bytes)", s.paging, refi.delivered.len(), r2.stdout.len())));
                         }
                     }
